@@ -288,6 +288,10 @@ func viewModelCases(g *gen) {
 		do("ether", lib.MkEther(dmac, smac, uint16(rng.Pick(0x0800, 0x86dd, 0x0806, int(uint16(rng.U64())))), ip4))
 		do("ip4", ip4)
 		do("ip6", ip6)
+		do("ip6", append(append([]byte{}, ip6...), rng.Bytes(1+rng.Intn(6))...)) // trailing bytes (padding, FCS)
+		if len(ip6) > 41 {
+			do("ip6", ip6[:len(ip6)-1-rng.Intn(2)]) // shorter than the payload length says
+		}
 		do("udp", udp)
 		do("arp", arp)
 		do("icmp", echo)
